@@ -399,6 +399,28 @@ Section Strong.
       + rewrite (Inv_I1 W sem _ I1 m B Im H). apply spec_ext; auto.
       + exfalso. apply H. rewrite (inv_unbuilt W sem _ I1 m B), Im. reflexivity.
   Qed.
+  (* ------------------------------------------------------- list, twice *)
+  Theorem list_repeat s l : Inv s -> settled s -> ltN l ->
+    snd (evaluate_list (fst (evaluate_list s l)) l) = snd (evaluate_list s l)
+    /\ forall m, st_built (fst (evaluate_list (fst (evaluate_list s l)) l)) m
+                 = st_built (fst (evaluate_list s l)) m
+              /\ st_cache (fst (evaluate_list (fst (evaluate_list s l)) l)) m
+                 = st_cache (fst (evaluate_list s l)) m.
+  Proof.
+    intros I S F.
+    destruct (list_inv l s I F) as (I1 & K1 & E1).
+    pose proof (settled_list l s I S F) as S1.
+    set (s1 := fst (evaluate_list s l)) in *.
+    destruct (list_inv l s1 I1 F) as (I2 & K2 & E2).
+    pose proof (settled_list l s1 I1 S1 F) as S2.
+    split.
+    - rewrite E1, E2. apply map_ext_in. intros a Ha.
+      unfold ltN in F. rewrite Forall_forall in F. apply evaluate_same; auto.
+    - assert (EB: forall m, st_built (fst (evaluate_list s1 l)) m = st_built s1 m).
+      { intros m. apply eq_true_iff_eq. rewrite (list_built_iff l s1 I1 F m).
+        unfold s1. rewrite (list_built_iff l s I F m). tauto. }
+      intros m. split; [apply EB|]. apply state_determined; auto.
+  Qed.
 End Strong.
 
 (* ================================================================ weak *)
@@ -585,6 +607,18 @@ Section WeakList.
     - apply (invariant_weak W sem WF NBW SO).
     - intros s l I S F. split; [now apply settled_list_weak|now apply list_inv_weak].
   Qed.
+  (* C05_list_repeat *)
+  Theorem list_repeat_weak s l : Inv W sem s -> settled W s -> ltN W l ->
+    snd (evaluate_list W sem (fst (evaluate_list W sem s l)) l) = snd (evaluate_list W sem s l)
+    /\ forall m, st_built (fst (evaluate_list W sem (fst (evaluate_list W sem s l)) l)) m
+                 = st_built (fst (evaluate_list W sem s l)) m
+              /\ st_cache (fst (evaluate_list W sem (fst (evaluate_list W sem s l)) l)) m
+                 = st_cache (fst (evaluate_list W sem s l)) m.
+  Proof.
+    intros I S F. apply (Inv_guard W sem WF NBW) in I.
+    rewrite (evaluate_list_g l s F), (evaluate_list_g l _ F).
+    apply (list_repeat W g WF NB2 SO2 s l I S F).
+  Qed.
 End WeakList.
 
 (* ---- the hypotheses are satisfiable (tests, not theorems): the two-column
@@ -661,4 +695,12 @@ Proof.
   - cbn; lia.
   - right. split; vm_compute; discriminate.
   - split; [exact A|]. vm_compute. reflexivity.
+Qed.
+
+Example xl_list_repeat :
+  snd (evaluate_list exaW exa_sem (fst (evaluate_list exaW exa_sem (init exaW) [5; 2; 4; 2])) [5; 2; 4; 2])
+  = snd (evaluate_list exaW exa_sem (init exaW) [5; 2; 4; 2]).
+Proof.
+  apply (list_repeat_weak exaW exa_sem (exa_wf _) (exa_weak _) xo_stored (init exaW) _ xo_inv
+           (settled_init exaW) xl_ltN).
 Qed.
